@@ -1273,8 +1273,13 @@ def _fd_update_root(
   )
 
   val = packed_precond
+  # The sketch update has no residual to report, but a non-finite result
+  # (NaN/Inf in the gradient factor or in the previous sketch) must not be
+  # accepted as a verified root.
   error_metrics = default_training_metrics(generate_fd_metrics).replace(
-      inverse_pth_root_errors=jnp.array(0.0, jnp.float32))
+      inverse_pth_root_errors=jnp.where(
+          jnp.isfinite(packed_precond).all(), 0.0, jnp.nan).astype(
+              jnp.float32))
   if generate_training_metrics and generate_fd_metrics:
     error_metrics = error_metrics.replace(
         fd=FDDiagnostics.create(  # pytype: disable=wrong-arg-types  # jax-ndarray
